@@ -50,7 +50,7 @@ CHECKS = {
          "alpha operations, mapping and conversion, through exact / oversized / cropped / nested / typed destinations, 1 and 4 threads, each run twice with different sentinels: "
          "the hook events of every recorded call (crop resolution, copy fast path, dispatch, super-sampling plan, every temporary image with buffer length before/after and alignment gap, window extents, pass order and offsets, premultiply/divide) are validated step by step against Resizer!Ok/Upd (TraceResize), and TLC checks outside bytes unchanged, inside bytes equal in both runs, source unchanged, destination untouched on errors and zero sizes. "
          "Plans with a single pass whose crop lands inside cropped / nested views and every residue of the row length (vector body vs scalar tail of the alpha kernels) are covered systematically. Api.tla holds the entry-point decision tables "
-         "(operation x source type x destination type x size relation -> Ok / which error) over all pixel-type pairs; TraceApi judges the recorded answer and the untouched destination of every combination. Thorough: + 6k seeded random calls.",
+         "(operation x source type x destination type x size relation -> Ok / which error) over all pixel-type pairs; TraceApi judges the recorded answer and the untouched destination of every combination, the container life cycle (Image::new zeroed, buffer length, copy, into_vec, typed access only with the own pixel type) and Filter::new. Thorough: + 6k seeded random calls.",
     note="Outside/source bytes are compared via two 31-bit digests. Assignment is inferred from equality under two sentinels (a result equal to both sentinels would be missed).",
     design="4/C05", technique=TECH),
  "C07": dict(
